@@ -43,7 +43,8 @@ def c05(tier):
             for f in range(n + 2):
                 bm.append(U(f"bmc:{kind}:n{n}:L{L}:f{f}", "tab", "bmc", dict(kind=kind, n=n, L=L - 1, fixed=[f]), timeout=300))
     tw += [twin(bm[0]), twin(bm[-1])]
-    return us + bm + tw
+    sp = spec_units(tier)
+    return us + bm + sp + tw + [twin(sp[-1])]
 
 
 # ---------------------------------------------------------------------------------------------
@@ -117,7 +118,7 @@ def c02(tier):
       bounds={"quick": {"statements": 2, "frame_size": "symbolic >= 1", "physical": "all three", "integrations": "generic (reduced alphabet), rdflib (one spine per subject)"},
               "thorough": {"statements": 2, "frame_size": "symbolic >= 1", "alphabet": "full"}},
       outside="as C01; the reference decoder (vpkg/ref) is my reading of the Jelly spec (T4)",
-      explanation="bytes written by the real serializers are decoded by the independent reference codec only (no pyjelly, no rdf_pb2): options first, ids within declared sizes, zero-delta rules, complete first statement/quoted triples, row kinds per physical type, namespace rows only in v2; result must equal the input",
+      explanation="L-TAB-SPEC: the real table writer against the spec's reader with the table size a symbolic UNBOUNDED integer (histories <= 4/5 uses over 4 keys); bytes written by the real serializers are decoded by the independent reference codec only (no pyjelly, no rdf_pb2): options first, ids within declared sizes, zero-delta rules, complete first statement/quoted triples, row kinds per physical type, namespace rows only in v2; result must equal the input",
       assumptions=["T4: reference codec validated against the repository's fixtures at every run (vpkg.ref.selftest)"])
 def c03(tier):
     us = pipe_units("ref", "ref", tier)
@@ -128,7 +129,8 @@ def c03(tier):
         u["timeout"] = 300
     if tier == "quick":
         r = [u for u in r if u["params"]["phys"] != 3 or u["params"]["fixed"][0] == 0]
-    return us + r + [twin(us[0]), twin(r[0])]
+    sp = spec_units(tier)
+    return us + r + sp + [twin(us[0]), twin(r[0]), twin(sp[0])]
 
 
 @prop("C19", functions=PIPE_FUNCS + TAB_FUNCS,
@@ -590,4 +592,17 @@ def stmt_units(tier):
             for tn in (dict(n=2, m=2), dict(n=2, m=1)):
                 mk(["iri", "iri", "lit"], tn, tp, d0, 1800)
         mk(["iri", "bnode", "qt:bnode,iri,lit"], dict(n=2, m=2), dict(n=2, m=2, e=0), d0, 1800)
+    return out
+
+
+def spec_units(tier):
+    out = []
+    for kind in ("name", "prefix", "datatype"):
+        if tier == "quick":
+            for f in range(4):
+                out.append(U(f"spec:{kind}:L4:f{f}", "tab", "spec", dict(kind=kind, L=3, fixed=[f]), timeout=600))
+        else:
+            for f in range(4):
+                for g in range(4):
+                    out.append(U(f"spec:{kind}:L5:f{f}{g}", "tab", "spec", dict(kind=kind, L=3, fixed=[f, g]), timeout=1800))
     return out
